@@ -241,6 +241,17 @@ Print Assumptions C10_value_ids_faithful.
 Theorem C10_nan_values_never_equal : forall a b, nan_free a = false -> caw_eq_src a b = false.
 Proof. exact caw_eq_nan. Qed.
 Print Assumptions C10_nan_values_never_equal.
+(* greedy membership of an array-valued sensor is BY VALUE (finding F27, repaired: sensor_to_categorical wraps the greedy
+   values, so the membership test goes through ComparableArrayWrapper.__eq__ on both sides): a value of the sensor is
+   greedy iff some greedy value has the same shape and the same elements *)
+Theorem C10_greedy_by_value : forall (u g : list wv),
+  (forall x, In x u -> nan_free x = true) -> (forall x y, In x u -> In y u -> compatible x y = true) ->
+  incl g u -> forall x i j, In x u ->
+  (In (id_in caw_eq_src u i x) (ids_from caw_eq_src u j g) <->
+   exists y, In y g /\ arr_shape y = arr_shape x /\ wdata y = wdata x).
+Proof. exact greedy_by_value. Qed.
+Print Assumptions C10_greedy_by_value.
+Definition C10_example_array_greedy := ex_array_greedy.
 Definition C10_example_value_equality := ex_value_equality.
 Definition C10_example_shape_change := ex_shape_change_is_not_a_repeat.
 
